@@ -173,6 +173,9 @@ impl Callable for Access {
                 bail!("Can not access a tuple with: {}", index)
             };
             if let Type::Tuple(mut t) = obj {
+                if *index < 0 || *index as usize >= t.len() {
+                    bail!("tuple index out of range: {} (size {})", index, t.len())
+                }
                 Ok(t.remove(*index as usize))
             } else {
                 bail!("Can not access type: {}", obj)
@@ -223,7 +226,10 @@ impl Callable for Access {
                 bail!("Can not access a tuple with: {}", index)
             };
             if let Value::Tuple(t) = obj {
-                t[*index as usize].value_of(ctx)
+                t.as_slice()
+                    .get(*index as usize)
+                    .ok_or_else(|| err_msg(format!("tuple index out of range: {}", index)))?
+                    .value_of(ctx)
             } else {
                 bail!("Can not access type: {}", obj)
             }
